@@ -29,3 +29,9 @@ func accountOfKey(d *sim.Dump, key string) *ethledger.InnerAccount {
 	}
 	return acc
 }
+
+func mustMkdir(d string) {
+	if err := os.MkdirAll(d, 0755); err != nil {
+		panic(err)
+	}
+}
